@@ -68,6 +68,7 @@ def u_check_flow_conservation():
     OM, IM = z3.Function("out_value_missing", INT, INT, BOOL), z3.Function("in_value_missing", INT, INT, BOOL)
     OS, IS = z3.Function("out_prefix_sum", INT, INT, REAL), z3.Function("in_prefix_sum", INT, INT, REAL)
     st = {}
+    PC = "C02,C19"          # also the gate of C19's "a non-conserving flow is rejected"
 
     class Data:
         def __init__(self, F, M, v, j): self.F, self.M, self.v, self.j = F, M, lift(v), lift(j)
@@ -117,19 +118,19 @@ def u_check_flow_conservation():
         j = z3.Int("pj")
         if r is True:
             c.prove("post:True-only-if-every-interior-node-has-exactly-equal-in-and-out-sums-and-no-value-is-missing",
-                    z3.ForAll([j], z3.Implies(z3.And(j >= 0, j < n, interior(NAT(j))), balanced(NAT(j)))), prop=P)
+                    z3.ForAll([j], z3.Implies(z3.And(j >= 0, j < n, interior(NAT(j))), balanced(NAT(j)))), prop=PC)
         elif r is False:
             c.prove("post:False-only-if-some-interior-node-is-unbalanced-or-lacks-a-value",
-                    z3.Exists([j], z3.And(j >= 0, j < n, interior(NAT(j)), z3.Not(balanced(NAT(j))))), prop=P)
+                    z3.Exists([j], z3.And(j >= 0, j < n, interior(NAT(j)), z3.Not(balanced(NAT(j))))), prop=PC)
         else:
-            c.prove("post:result-is-a-bool", z3.BoolVal(False), prop=P)
+            c.prove("post:result-is-a-bool", z3.BoolVal(False), prop=PC)
 
     hv = lambda nm: (lambda old: Sym(core.ctx().fresh_const(nm, REAL)))
-    loops = {0: dict(inv=inv_outer, prop=P),
-             1: dict(inv=inv_inner("out_flow", OS, OM), prop=P, havoc={"out_flow": hv("out_flow")}, keep=("x", "y", "data")),
-             2: dict(inv=inv_inner("in_flow", IS, IM), prop=P, havoc={"in_flow": hv("in_flow")}, keep=("x", "y", "data"))}
+    loops = {0: dict(inv=inv_outer, prop=PC),
+             1: dict(inv=inv_inner("out_flow", OS, OM), prop=PC, havoc={"out_flow": hv("out_flow")}, keep=("x", "y", "data")),
+             2: dict(inv=inv_inner("in_flow", IS, IM), prop=PC, havoc={"in_flow": hv("in_flow")}, keep=("x", "y", "data"))}
     from vf.replay import replay_flow_conservation
-    return Unit("flowpaths/utils/graphutils.py", "check_flow_conservation", h, globs=dict(utils=UtilsStub), loops=loops, props=[P], replay=replay_flow_conservation,
+    return Unit("flowpaths/utils/graphutils.py", "check_flow_conservation", h, globs=dict(utils=UtilsStub), loops=loops, props=[P, "C19"], replay=replay_flow_conservation,
                 assumptions=["A2 networkx out_edges/in_edges enumerate exactly the incident edges; degrees are their counts",
                              "edge values are treated as mathematical reals (float rounding of the sums is outside the encoding)"])
 
